@@ -174,6 +174,13 @@ type workerResult struct {
 	WallS      float64          `json:"wall_s"`
 }
 
+// Out and Err are the process's original standard streams: properties may
+// redirect os.Stdout / os.Stderr to silence the code under test.
+var (
+	Out = os.Stdout
+	Err = os.Stderr
+)
+
 const keyCap = 400000
 
 var (
@@ -206,7 +213,7 @@ func baseSeed() uint64 {
 	if err != nil {
 		iv, err2 := strconv.ParseInt(strings.TrimSpace(s), 10, 64)
 		if err2 != nil {
-			fmt.Fprintf(os.Stderr, "bad seed %q\n", s)
+			fmt.Fprintf(Err, "bad seed %q\n", s)
 			os.Exit(2)
 		}
 		v = uint64(iv)
@@ -242,11 +249,11 @@ func Main(p Property) {
 	defer func() {
 		if r := recover(); r != nil {
 			if h, ok := r.(HarnessError); ok {
-				fmt.Fprintln(os.Stderr, "HARNESS-ERROR:", h.Msg)
+				fmt.Fprintln(Err, "HARNESS-ERROR:", h.Msg)
 				os.Exit(2)
 			}
 			if d, ok := r.(Divergence); ok {
-				fmt.Fprintln(os.Stderr, "HARNESS-ERROR:", d.Error())
+				fmt.Fprintln(Err, "HARNESS-ERROR:", d.Error())
 				os.Exit(2)
 			}
 			panic(r)
@@ -259,7 +266,7 @@ func Main(p Property) {
 	case *flagDump >= 0:
 		c, _ := generateCase(p, env, *flagDump)
 		b, _ := json.MarshalIndent(c, "", " ")
-		fmt.Println(string(b))
+		fmt.Fprintln(Out, string(b))
 	case *flagWorker >= 0:
 		workerMain(p, env)
 	default:
@@ -353,7 +360,7 @@ func workerMain(p Property, env *Env) {
 				res.Probes[k] += v
 			}
 			for _, k := range out.Keys {
-				if name, rest, ok := strings.Cut(k, ":"); ok && len(name) < 24 && !strings.Contains(name, " ") {
+				if name, rest, ok := strings.Cut(k, ":"); ok && strings.HasPrefix(name, "@") {
 					m := seenNamed[name]
 					if m == nil {
 						m = map[uint64]bool{}
@@ -409,11 +416,11 @@ func workerMain(p Property, env *Env) {
 	res.WallS = time.Since(start).Seconds()
 	b, err := json.Marshal(res)
 	if err != nil {
-		fmt.Fprintln(os.Stderr, "HARNESS-ERROR: marshal worker result:", err)
+		fmt.Fprintln(Err, "HARNESS-ERROR: marshal worker result:", err)
 		os.Exit(2)
 	}
 	if err := os.WriteFile(*flagOut, b, 0o644); err != nil {
-		fmt.Fprintln(os.Stderr, "HARNESS-ERROR:", err)
+		fmt.Fprintln(Err, "HARNESS-ERROR:", err)
 		os.Exit(2)
 	}
 }
@@ -435,7 +442,7 @@ func parentMain(p Property, env *Env) int {
 		env.Scratch = d
 		defer os.RemoveAll(d)
 	}
-	fmt.Printf("[%s] tier=%s seed=%d workers=%d\n", p.ID(), env.Tier, env.Seed, n)
+	fmt.Fprintf(Out, "[%s] tier=%s seed=%d workers=%d\n", p.ID(), env.Tier, env.Seed, n)
 	type proc struct {
 		cmd *exec.Cmd
 		out string
@@ -461,8 +468,8 @@ func parentMain(p Property, env *Env) int {
 			args = append(args, "-tier="+env.Tier)
 		}
 		cmd := exec.Command(os.Args[0], args...)
-		cmd.Stdout = os.Stderr // worker chatter must never look like a verdict
-		cmd.Stderr = os.Stderr
+		cmd.Stdout = Err // worker chatter must never look like a verdict
+		cmd.Stderr = Err
 		cmd.Env = append(os.Environ(), "GOMAXPROCS=2")
 		if err := cmd.Start(); err != nil {
 			Harnessf("start worker: %v", err)
@@ -521,7 +528,7 @@ func parentMain(p Property, env *Env) int {
 		}
 	}
 	if harness != "" {
-		fmt.Fprintln(os.Stderr, "HARNESS-ERROR:", harness)
+		fmt.Fprintln(Err, "HARNESS-ERROR:", harness)
 		return 2
 	}
 	loopWall := time.Since(start).Seconds()
@@ -571,7 +578,7 @@ func parentMain(p Property, env *Env) int {
 				if len(d) > 3000 {
 					d = d[:3000] + "..."
 				}
-				fmt.Fprintf(os.Stderr, "--- %s violation, clause %s [%s] (minimised: %d params bytes, %d decisions, %d non-default)\n%s\n", p.ID(), min.Expect.Clause, min.Expect.Signature, len(min.Params), len(min.Choices), nonZero(min.Choices), d)
+				fmt.Fprintf(Err, "--- %s violation, clause %s [%s] (minimised: %d params bytes, %d decisions, %d non-default)\n%s\n", p.ID(), min.Expect.Clause, min.Expect.Signature, len(min.Params), len(min.Choices), nonZero(min.Choices), d)
 			}
 			// the minimised signature may differ from the original one;
 			// a minimised case that lands on a known finding is still
@@ -583,7 +590,7 @@ func parentMain(p Property, env *Env) int {
 	}
 	sort.Strings(knownSeen)
 	for _, l := range knownSeen {
-		fmt.Println(l)
+		fmt.Fprintln(Out, l)
 	}
 
 	meta := p.Meta(env)
@@ -632,14 +639,14 @@ func parentMain(p Property, env *Env) int {
 	if err := os.WriteFile(evPath, append(b, '\n'), 0o644); err != nil {
 		Harnessf("write evidence: %v", err)
 	}
-	fmt.Printf("[%s] runs=%d distinct=%d steps=%d wall=%.1fs faults=%v\n", p.ID(), agg.Evals, len(keys), agg.Steps, wall, agg.Faults)
+	fmt.Fprintf(Out, "[%s] runs=%d distinct=%d steps=%d wall=%.1fs faults=%v\n", p.ID(), agg.Evals, len(keys), agg.Steps, wall, agg.Faults)
 	for _, r := range reports {
-		fmt.Println(r)
+		fmt.Fprintln(Out, r)
 	}
 	if violations > 0 {
 		return 1
 	}
-	fmt.Printf("[%s] OK: property held on everything explored\n", p.ID())
+	fmt.Fprintf(Out, "[%s] OK: property held on everything explored\n", p.ID())
 	return 0
 }
 
@@ -675,13 +682,13 @@ func replayMain(p Property, env *Env, path string) int {
 	ch := Replay(c.Choices, true)
 	out := p.Execute(env, c.Params, ch)
 	if out.Violation == nil {
-		fmt.Printf("[%s] replay %s: no violation (the tree under test no longer fails this case)\n", p.ID(), path)
+		fmt.Fprintf(Out, "[%s] replay %s: no violation (the tree under test no longer fails this case)\n", p.ID(), path)
 		return 0
 	}
-	fmt.Printf("[%s] replay reproduced: clause=%s signature=%s\n%s\n", p.ID(), out.Violation.Clause, out.Violation.Signature, out.Violation.Detail)
+	fmt.Fprintf(Out, "[%s] replay reproduced: clause=%s signature=%s\n%s\n", p.ID(), out.Violation.Clause, out.Violation.Signature, out.Violation.Detail)
 	if c.Expect != nil && c.Expect.Clause != out.Violation.Clause {
-		fmt.Printf("[%s] note: recorded clause was %s\n", p.ID(), c.Expect.Clause)
+		fmt.Fprintf(Out, "[%s] note: recorded clause was %s\n", p.ID(), c.Expect.Clause)
 	}
-	fmt.Printf("VIOLATION property=%s replay=%s\n", p.ID(), path)
+	fmt.Fprintf(Out, "VIOLATION property=%s replay=%s\n", p.ID(), path)
 	return 1
 }
